@@ -277,8 +277,16 @@ func (api *API) encodeStructFields(
 				}
 				fieldValue = fieldValue.Elem()
 				fieldType = fieldType.Elem()
+				// an embedded pointer counts as a nesting level (as in decodeStructFields)
+				if opts.encodeDepth++; opts.encodeDepth > maxDecodeDepth {
+					return ierrors.Errorf("exceeded the maximum nesting depth of %d", maxDecodeDepth)
+				}
 			}
-			if err := api.encodeStructFields(ctx, s, fieldValue, fieldType, opts); err != nil {
+			err := api.encodeStructFields(ctx, s, fieldValue, fieldType, opts)
+			if sField.fType.Kind() == reflect.Ptr {
+				opts.encodeDepth--
+			}
+			if err != nil {
 				return ierrors.Wrapf(err, "can't serialize embedded struct %s", sField.name)
 			}
 
